@@ -175,9 +175,11 @@ theorem repOnly_mkSegments (L : Layout) (ts : List Int) (n : Nat)
     rw [hnn, ← hinit, hproc]
     exact hbuild
   · intro i hi
-    refine ⟨{ start := ts.getD i 0, stp := ts.getD (i + 1) 0, to := (back i).toList ++ [nextDest n i], await := [],
-      ty := tyAt ts i }, ?_, rfl, rfl, rfl⟩
-    simp only [segs, List.getElem?_map, List.getElem?_range hi, Option.map_some]
+    have hget : segs[i]? = some
+        { start := ts.getD i 0, stp := ts.getD (i + 1) 0, to := (back i).toList ++ [nextDest n i],
+          await := [], ty := tyAt ts i } := by
+      simp only [segs, List.getElem?_map, List.getElem?_range hi, Option.map_some]
+    exact ⟨_, hget, rfl, rfl, rfl⟩
 
 /-- ANY repeats (nested, disjoint, sharing ends, …): `add_segments` succeeds with a table of the class `RepForm` -/
 theorem repeats_repForm (L : Layout) (hL : RepeatsOnly L) :
